@@ -29,7 +29,9 @@ RULE = ('fixture polynomial forward model (1-4 coefficients, linear/log modes, i
         'the atmosphere only, inverted NPoint pressure nodes, zero Guillot opacities), the reference being a model CONSTRUCTED '
         'at the prior-transformed values; fitted subsets with default linear/log priors or user priors (Uniform, LogUniform bounds / '
         'lin_bounds, Gaussian, LogGaussian); sequences of 4-8 cube points incl. 0, 1 and invalid ones; all three '
-        'wrappers. distinct non-trivial = distinct (sampler, stream, observation type, prior kinds, #fitted, has '
+        'wrappers; the prior callback of the samplers that return the point (nestle, PolyChord) also evaluated twice on a row '
+        'of a live-point array the caller keeps; shaped stream: the native-grid observation keeps spectrum and error bars '
+        'as a row / column vector or a 2-D / 3-D array (2-30 bins). distinct non-trivial = distinct (sampler, stream, observation type, prior kinds, #fitted, has '
         'invalid point) with at least one finite likelihood')
 ASSUMPTIONS = ['scipy.stats.uniform.ppf(x, loc, scale) = x*scale + loc on [0, 1]; scipy.stats.norm.ppf = ndtri(x)*scale + loc '
                '(ndtri supplied by scipy.special)',
@@ -180,11 +182,16 @@ def fixtures():
     class GridObs(BaseSpectrum):
         """observation on its own wavenumber grid, NativeBinner (like tests/optimizer LineObs) + a fitted offset"""
 
-        def __init__(self, wn, spec, err):
+        def __init__(self, wn, spec, err, shape=None):
             super().__init__('GridObs')
             self._wn = np.asarray(wn, float)
             self._y = np.asarray(spec, float)
             self._e = np.asarray(err, float)
+            if shape is not None:
+                # the observation keeps its spectrum and error bars in an array of this shape (orders x pixels, a row /
+                # column vector read from a file, ...), bins in C order
+                self._y = self._y.reshape(shape)
+                self._e = self._e.reshape(shape)
             self._offset = 0.0
 
         def create_binner(self):
@@ -381,7 +388,7 @@ def build_tm(tspec):
 def build_obs(o):
     fx = fixtures()
     if o['type'] == 'grid':
-        return fx['GridObs'](o['wn'], o['spectrum'], o['err'])
+        return fx['GridObs'](o['wn'], o['spectrum'], o['err'], o.get('shape'))
     cols = [np.asarray(o['wl'], float), np.asarray(o['spectrum'], float), np.asarray(o['err'], float)]
     if o.get('widths') is not None:
         cols.append(np.asarray(o['widths'], float))
@@ -509,6 +516,19 @@ def call_prior(sampler, cb, u):
     return [float(v) for v in cb(np.array(u, float))]
 
 
+def call_prior_kept(sampler, cb, u, visits=2):
+    """the prior callback as the samplers that RETURN the transformed point use it (nestle, PolyChord): the unit-cube point
+    is a row of the sampler's own live-point array (the callback is handed a view of it) and the sampler comes back to the
+    same point later. Returns the values of every visit. (MultiNest's callback transforms its cube in place by contract: no
+    second visit of the same memory there.)"""
+    live = np.zeros((3, len(u)), float)
+    live[1, :] = u
+    out = []
+    for _ in range(visits):
+        out.append([float(v) for v in cb(live[1])])
+    return out
+
+
 def call_loglike(sampler, cb, v):
     if sampler == 'nestle':
         return float(cb(np.array(v, float)))
@@ -577,7 +597,7 @@ def eval_case(ctx, spec):
         return
     ctx.check_eq('parameter order of the sampled space', [c[0] for c in opt.fitting_parameters], order, sm)
     ctx.check_eq('ndim handed to the sampler', int(call['ndim']), len(order), sm)
-    err = np.asarray(obs2.errorBar, float)
+    err = np.asarray(obs2.errorBar, float).ravel()
     norm_terms = np.log(err * TWO_PI_SQRT)
     norm = float(np.sum(norm_terms))
     any_finite = False
@@ -599,6 +619,24 @@ def eval_case(ctx, spec):
         if not C.close(v, v_or, rel=1e-11, abs_=1e-13):
             ctx.violation('prior-order:' + sampler, 'prior callback is not prior_i.sample(u_i) in parameter order',
                           case, dict(u=u, impl=v, expected=v_or, order=order))
+        if sampler != 'multinest':
+            # the same point held in the sampler's live-point array and visited twice: every visit is the prior transform
+            # of the unit-cube point
+            try:
+                visits = call_prior_kept(sampler, call['prior'], u)
+            except Exception as e:
+                ctx.violation('prior-raises:' + sampler + ':kept-point', 'prior callback raised %r' % (e,), case, dict(u=u))
+                return
+            ctx.bucket('prior:kept-live-point-visited-twice:' + sampler)
+            for nv, vv in enumerate(visits):
+                ctx.check_close('prior callback on a kept live point (visit %d) vs Likelihood.priorTransform' % (nv + 1),
+                                vv, v_md, dict(sm, u=u), rel=1e-12, abs_=1e-300)
+                if not C.close(vv, v_or, rel=1e-11, abs_=1e-13):
+                    ctx.violation('prior-order:%s:kept-point-visit-%d' % (sampler, nv + 1),
+                                  'visit %d of a unit-cube point the sampler keeps: the prior callback is not '
+                                  'prior_i.sample(u_i) in parameter order' % (nv + 1),
+                                  case, dict(u=u, impl=vv, expected=v_or, order=order))
+                    break
         # ---- log-likelihood callback at the transformed point
         try:
             with contextlib.redirect_stdout(io.StringIO()):
@@ -691,7 +729,7 @@ def eval_case(ctx, spec):
             [n for n in order] == ['c%d' % k for k in range(len(m['coefs']))] and not any(d[4] for d in descs):
         xs = np.asarray(spec['obs']['wn'], float) / 1000.0
         d = ctx.model().call('c06.cube_poly', C.F(math.pi), wire_priors(descs, [0.0] * len(descs)), C.L(xs),
-                             C.F(m['limit']), C.L(m.get('nan_idx', []), C.N), C.L(np.asarray(obs2._y, float)),
+                             C.F(m['limit']), C.L(m.get('nan_idx', []), C.N), C.L(np.asarray(obs2._y, float).ravel()),
                              C.L(err), C.LL(seq_points))
         seq_md = d.list(lambda: dec_optval(d))
         ctx.check_close('callback sequence vs Likelihood.runSequence (fixture forward model inside the model)',
@@ -705,6 +743,10 @@ def eval_case(ctx, spec):
     if spec.get('prev_obs') is not None:
         ctx.bucket('history:set_observed-after-another-observation')
     ctx.bucket('nfit:%d' % len(order))
+    if spec['obs'].get('shape') is not None:
+        sh = tuple(spec['obs']['shape'])
+        ctx.bucket('observation-arrays:%d-D:%s:%s' % (len(sh), 'first-axis-shorter-than-bins' if sh[0] < len(err) else
+                                                     'all-bins-on-first-axis', sampler))
 
 
 # ------------------------------------------------------------------------------------------ generators
@@ -742,13 +784,35 @@ def gen_cubes(rng, nd, n, gauss_cols, inv_col=None):
     return pts
 
 
-def gen_poly_spec(rng, k):
+def shapes_of(n):
+    """the array shapes (other than flat) an observation of n bins may keep its spectrum / error bars in"""
+    out = [(1, n), (n, 1), (1, 1, n)]
+    for a in range(2, n):
+        if n % a == 0:
+            out.append((a, n // a))
+            for b in range(2, n // a):
+                if (n // a) % b == 0:
+                    out.append((a, b, n // a // b))
+    return out
+
+
+def gen_shaped_spec(rng, k):
+    """the fixture observation keeps its spectrum and error bars in a 2-D / 3-D array (row or column vector, orders x pixels,
+    ...): chisq_trans flattens them, the bins are those of the wavenumber grid in C order"""
+    spec = gen_poly_spec(rng, k, otype='grid', nobs=int(rng.choice([2, 3, 4, 6, 8, 9, 12, 16, 24, 30])))
+    spec['stream'] = 'poly-shaped'
+    sh = shapes_of(len(spec['obs']['err']))
+    spec['obs']['shape'] = list(sh[(k // 3) % len(sh)])
+    return spec
+
+
+def gen_poly_spec(rng, k, otype=None, nobs=None):
     sampler = SAMPLERS[k % 3]
     ncoef = int(rng.integers(1, 5))
     modes = [('log' if rng.random() < 0.4 else 'linear') for _ in range(ncoef)]
     coefs = [float(rng.uniform(0.2, 1.5)) for _ in range(ncoef)]
-    nobs = int(rng.integers(1, 13))
-    otype = ['grid', 'array', 'array+offset'][int(rng.integers(0, 3))]
+    nobs = nobs or int(rng.integers(1, 13))
+    otype = otype or ['grid', 'array', 'array+offset'][int(rng.integers(0, 3))]
     # fixed quota (every 7th case, all three samplers in turn): a long observation (90-260 bins) with very small or very
     # large error bars - the regime where a product of the per-bin normalisations under/overflows although the sum of
     # their logarithms is an ordinary number
@@ -1095,6 +1159,9 @@ def run(ctx):
         for k in range(ctx.n(6, 60)):
             eval_case(ctx, gen_k1_spec(rng, k))
         malformed(ctx)
+        # (later streams after the older ones, whose random draws they leave as they were)
+        for k in range(ctx.n(120, 2400)):
+            eval_case(ctx, gen_shaped_spec(rng, k))
     finally:
         cleanup()
 
